@@ -393,6 +393,58 @@ def stream_units(tier):
     return us
 
 
+# ---------------------------------------------------------------------------
+# accessors / raw pointers / conversions (representative instantiations) and static layout facts
+# ---------------------------------------------------------------------------
+ACC_DRIVER = '''#include "ImathVec.h"
+#include "ImathMatrix.h"
+#include "ImathColor.h"
+#include "ImathShear.h"
+#include "ImathQuat.h"
+#include <type_traits>
+using namespace IMATH_INTERNAL_NAMESPACE;
+template class IMATH_INTERNAL_NAMESPACE::Vec2<float>; template class IMATH_INTERNAL_NAMESPACE::Vec3<float>; template class IMATH_INTERNAL_NAMESPACE::Vec4<float>;
+template class IMATH_INTERNAL_NAMESPACE::Color4<float>; template class IMATH_INTERNAL_NAMESPACE::Shear6<float>; template class IMATH_INTERNAL_NAMESPACE::Quat<float>;
+template class IMATH_INTERNAL_NAMESPACE::Matrix33<float>; template class IMATH_INTERNAL_NAMESPACE::Matrix44<float>;
+void use_acc (Vec3<float> &v, Vec3<double> &d, Vec3<int> &i, Matrix33<float> &m, Matrix33<double> &md, double &x)
+{ v = Vec3<float> (d); v = Vec3<float> (i); v.setValue (x, x, x); v.getValue (x, x, x); v.setValue (d); v.getValue (d); m = Matrix33<float> (md); m.setValue (md); m.getValue (md); }
+// static layout facts (compile-time, checked by clang while the AST is produced and by g++ in the shim build)
+#define LAYOUT(K, T, N) static_assert (sizeof (K<T>) == N * sizeof (T) && std::is_standard_layout<K<T>>::value, "contiguous block of exactly N elements");
+LAYOUT (Vec2, float, 2) LAYOUT (Vec3, float, 3) LAYOUT (Vec4, float, 4) LAYOUT (Vec2, short, 2) LAYOUT (Vec3, int, 3) LAYOUT (Vec4, double, 4) LAYOUT (Vec3, half, 3)
+LAYOUT (Color3, float, 3) LAYOUT (Color4, float, 4) LAYOUT (Color4, unsigned char, 4) LAYOUT (Shear6, float, 6) LAYOUT (Shear6, double, 6) LAYOUT (Quat, float, 4) LAYOUT (Quat, double, 4)
+LAYOUT (Matrix22, float, 4) LAYOUT (Matrix33, float, 9) LAYOUT (Matrix44, float, 16) LAYOUT (Matrix22, double, 4) LAYOUT (Matrix33, double, 9) LAYOUT (Matrix44, double, 16)
+static_assert (offsetof (Vec4<float>, x) == 0 && offsetof (Vec4<float>, y) == 4 && offsetof (Vec4<float>, z) == 8 && offsetof (Vec4<float>, w) == 12, "declaration order");
+static_assert (offsetof (Color4<float>, r) == 0 && offsetof (Color4<float>, g) == 4 && offsetof (Color4<float>, b) == 8 && offsetof (Color4<float>, a) == 12, "declaration order");
+static_assert (offsetof (Shear6<float>, xy) == 0 && offsetof (Shear6<float>, xz) == 4 && offsetof (Shear6<float>, yz) == 8 && offsetof (Shear6<float>, yx) == 12 && offsetof (Shear6<float>, zx) == 16 && offsetof (Shear6<float>, zy) == 20, "declaration order");
+static_assert (offsetof (Quat<float>, r) == 0 && offsetof (Quat<float>, v) == 4, "declaration order");
+'''
+ACC = {
+    "v2_idx": "Vec2<float>::operator[](int)", "v2_idxc": "Vec2<float>::operator[](int) const", "v3_idx": "Vec3<float>::operator[](int)", "v3_idxc": "Vec3<float>::operator[](int) const",
+    "v4_idx": "Vec4<float>::operator[](int)", "v4_idxc": "Vec4<float>::operator[](int) const", "c4_idx": "Color4<float>::operator[](int)", "c4_idxc": "Color4<float>::operator[](int) const",
+    "s6_idx": "Shear6<float>::operator[](int)", "s6_idxc": "Shear6<float>::operator[](int) const", "q_idx": "Quat<float>::operator[](int)", "q_idxc": "Quat<float>::operator[](int) const",
+    "v2_gv": "Vec2<float>::getValue()", "v3_gv": "Vec3<float>::getValue()", "v4_gv": "Vec4<float>::getValue()", "m33_gv": "Matrix33<float>::getValue()", "m44_gv": "Matrix44<float>::getValue()",
+    "m33_idx": "Matrix33<float>::operator[](int)", "m44_idx": "Matrix44<float>::operator[](int)",
+    "v3_from_d": "Vec3<float>::Vec3(const Vec3<double> &)", "v3_from_i": "Vec3<float>::Vec3(const Vec3<int> &)", "v3_set3": "Vec3<float>::setValue(double, double, double)",
+    "v3_setv": "Vec3<float>::setValue(const Vec3<double> &)", "v3_get3": "Vec3<float>::getValue(double &, double &, double &) const", "v3_getv": "Vec3<float>::getValue(Vec3<double> &) const",
+    "m33_from_d": "Matrix33<float>::Matrix33(const Matrix33<double> &)", "m33_setv": "Matrix33<float>::setValue(const Matrix33<double> &)", "m33_getv": "Matrix33<float>::getValue(Matrix33<double> &) const",
+}
+
+
+def acc_units(tier):
+    ex = extract.run_extraction("c04_accx", ACC_DRIVER, sorted(set(ACC.values())), outdir=GEN)
+    txt = "\n".join("#define F_%s %s" % (a, ex.names[sp]) for a, sp in ACC.items()) + "\n"
+    p = os.path.join(GEN, "c04_acc_names.h")
+    if not os.path.exists(p) or open(p).read() != txt:
+        open(p, "w").write(txt)
+    EXTRACTION[ex.name] = {"functions": len(ex.order), "differential": {k: ex.diff.get(k) for k in ("tested", "cases")}, "skipped": ex.diff.get("skipped", []),
+                           "static_layout_facts": "21 sizeof/standard-layout and 4 offsetof static_asserts in the driver compile under clang (extraction) and g++ (shim build)"}
+    H = os.path.join(VERIF, "harness", "c04_acc.c")
+    rp = {"src": H, "lang": "c", "cxx": [ex.shim_cpp], "includes": [GEN] + ex.includes}
+    return [Unit("c04.acc." + a, H, "h_" + a, enforce=[ex.names[sp]], includes=[GEN], backend="cvc5", mode="IEEE", functions=[sp], no_checks=True, timeout=300, replay=rp,
+                 cbmc_flags=["--unwind", "10", "--no-signed-overflow-check", "--object-bits", "10"],
+                 clause="%s: addresses / converts exactly the N elements of one contiguous block in declaration order" % sp) for a, sp in ACC.items()]
+
+
 FAMILIES = {
     "vec": ["Vec2", "Vec3", "Vec4"],
     "col": ["Color3", "Color4", "Shear6", "Quat"],
@@ -459,7 +511,7 @@ def units(tier):
                                    cbmc_flags=["--unwind", "8", "--unwinding-assertions"],
                                    no_checks=True, timeout=300,
                                    replay={"src": path, "lang": "c", "cxx": [ex.shim_cpp], "includes": [GEN] + ex.includes}))
-    us_stream = stream_units(tier)
+    us_stream = stream_units(tier) + acc_units(tier)
     for u in us:
         # cbmc 6 enables its standard checks by default; signed overflow in + - * and negation is
         # outside the property (proved under wrap-around semantics, see ASSUMPTIONS)
@@ -470,7 +522,7 @@ def units(tier):
 NOT_COVERED = [
     "operator<<: the token STRUCTURE is decided on a ghost stream log; the characters libstdc++ produces for one element (float formatting) are outside the verifier",
     "half element type (arithmetic through half operators: see C03)",
-    "operator[], getValue/setValue, converting and interop constructors, layout static facts: not yet under contract in this revision",
+    "operator[], getValue/setValue, converting constructors are under contract for representative instantiations (Vec2/3/4, Color4, Shear6, Quat, Matrix33/44 at float; float<-double, float<-int), the foreign-type interop constructors / assignments (has_xy ... traits) are not",
 ]
 ASSUMPTIONS = [
     "cxx2c extraction rules (DESIGN 3.2); extracted C differentially validated against the g++ build natively",
